@@ -436,6 +436,44 @@ def len_maintenance(ctx):
             r2.inst({'fn': fn, 'rebuilt_with_len_minus_1_only_under_Found': ok}, ok=ok, kind=(fn, 'rm', n_rm))
             if not ok:
                 r2.fail('%s/removal' % fn, mirq.site(b, bb), 'a collection is rebuilt with len - 1 where no Found location has been established (%s)' % '; '.join(trail)[:200])
+    # (c) where a collection is built with an explicit length, that length is 0 (an empty table), the length of the collection it
+    #     is rebuilt from, or that length minus one (a removal): never a quantity of the bucket table (number of buckets, ...)
+    for b in mir.bodies:
+        for bb, t_ in b.calls():
+            nm = strip_generics(callee_name(t_) or '')
+            if not re.search(r'builtin::(mapping::XMapping|set::XSet)::new$', nm) or len(t_['args']) != 4:
+                continue
+            a = t_['args'][3]
+            fn = strip_generics(mir.enclosing_fn(b)) if b.kind == 'closure' else b.nid
+            if 'const' in a:
+                ok = a['const'].get('int') == '0'
+                r2.inst({'fn': fn, 'len_argument': 'constant ' + str(a['const'].get('s'))}, ok=ok, kind=(fn, 'lenarg', bb))
+                if not ok:
+                    r2.fail('%s/len-origin' % fn, mirq.site(b, bb), 'a collection is built with a constant non-zero length')
+                continue
+            l = op_place(a)['l']
+            bad = []
+            from_len = False
+            for x in mirq.backslice(b, [l]):
+                if x != l and not (b.local_ty(x) or '').replace('(', '').startswith(('usize', 'bool')):
+                    continue
+                for kind, dbb, idx, d in b.defs().get(x, []):
+                    if kind == 'call':
+                        bad.append(strip_generics(callee_name(d) or '').split('::')[-1] + '()')
+                        continue
+                    rv = d['rv']
+                    pl = rv.get('place') or (op_place(rv['op']) if rv['k'] == 'use' else None)
+                    if pl is not None and any(isinstance(e, dict) and e.get('n') == 'len' and 'builtin::' in (e.get('adt') or '') for e in pl['p']):
+                        from_len = True
+                    elif rv['k'] in ('bin', 'checkedbin'):
+                        if not (rv['op'] in ('Sub', 'SubWithOverflow') and rv['b'].get('const', {}).get('int') == '1'):
+                            bad.append(rv['op'])
+                    elif rv['k'] not in ('use', 'cast', 'copyderef', 'ref'):
+                        bad.append(rv['k'])
+            ok = from_len and not bad
+            r2.inst({'fn': fn, 'len_argument': 'len of the source collection%s' % (' - 1' if n_rm and False else ''), 'other_ingredients': sorted(set(bad))}, ok=ok, kind=(fn, 'lenarg', bb))
+            if not ok:
+                r2.fail('%s/len-origin' % fn, mirq.site(b, bb), 'the length a collection is built with is not the length of the collection it is rebuilt from (or that minus one): it is computed from %s: the number of keys and the number of buckets differ as soon as two keys share a bucket' % (sorted(set(bad)) or 'something else'))
     if n_rm < 2:
         r2.fail('anchor/removals', '-', 'expected the removal paths (pop / discard / remove) that rebuild with len - 1')
     r2.need(8)
